@@ -251,9 +251,20 @@ func c07Bounds(r *fw.Rand) *geom.Bounds {
 	}
 	n := l.Stride()
 	args := make([]float64, 2*n)
+	// RFC 7946 section 5.2: a bounding box that crosses the antimeridian has its
+	// west edge greater than its east edge; "keeps its bounding box" means the 4
+	// or 6 numbers come back as they were, so one case in four leaves the first
+	// axis (one in eight every axis) in the order generated
+	keepOrder := 0
+	switch r.Intn(8) {
+	case 0, 1:
+		keepOrder = 1
+	case 2:
+		keepOrder = n
+	}
 	for i := 0; i < n; i++ {
 		a, b := gen.Float(r, gen.LonLat), gen.Float(r, gen.LonLat)
-		if a > b {
+		if a > b && i >= keepOrder {
 			a, b = b, a
 		}
 		args[i], args[i+n] = a, b
